@@ -8,6 +8,9 @@ spec/ledger/ScriptIntegrity.tla  pre-image = redeemers | datums (as they appeare
        pv-cbor scriptdata-replay decodes the witness set, calls ScriptData::build_for(..).hash() and compares with
        Hasher::<256>::hash(pre-image).  The five real transactions: TLC assembles the pre-image from their raw parts;
        the result must also be the hash recorded in the transaction body.
+       pallas-txbuilder call site: transactions staged with 0..8 spend/mint redeemers, datums and language views are
+       built several times (fresh HashMaps each); TLC assembles the pre-image from the redeemer / datum bytes AS EMITTED
+       in the built witness set; it must hash to the script_data_hash of the built body.
 """
 import json
 import os
@@ -26,6 +29,31 @@ def case_key(row):
 def judge(row, res):
     vio, drift = [], []
     got = res["got"]
+    if row["kind"] == "real" and row["name"].startswith("txb/"):
+        # a transaction built by pallas-txbuilder: the script_data_hash of its body against the formula
+        # applied to the redeemer / datum bytes of its own witness set
+        part = res.get("part") or {}
+        if "panic" in part or "error" in part:
+            drift.append("txbuilder %s: build fails: %s" % (row["name"], part.get("panic") or part.get("error")))
+        elif got["st"] == "nohash":
+            if res["want"]:
+                drift.append("txbuilder %s: no script_data_hash in the body although the witness set has redeemers or datums "
+                             "(language views %s)" % (row["name"], "set" if part.get("views_set") else "not set"))
+        elif not res["want"]:
+            vio.append(("txbuilder/hash-without-redeemers-and-datums",
+                        "%s: built body carries script_data_hash %s although the emitted witness set has neither redeemers nor datums"
+                        % (row["name"], got["h"])))
+        elif got["h"] not in res["want"]:
+            if not part.get("r"):
+                vio.append(("txbuilder/datums-without-redeemers",
+                            "%s: script_data_hash %s of the built body is not the hash of A0|datums|A0 (%s) for the emitted witness set, "
+                            "which has datums and no redeemers" % (row["name"], got["h"], res["want"])))
+            else:
+                vio.append(("txbuilder/hash-mismatch/redeemers=%s" % part.get("n_redeemers"),
+                            "%s: script_data_hash %s of the built body is not the hash %s of redeemers|datums|views as emitted in its "
+                            "witness set %s (redeemers emitted in (tag,index) order: %s)"
+                            % (row["name"], got["h"], res["want"], bytes(part["r"]).hex()[:100], part.get("sorted"))))
+        return vio, drift
     if row["kind"] == "real":
         if got["st"] != "hash" or got["h"] not in res["want"]:
             vio.append(("hash/real/%s" % row["name"], "%s: ScriptData hash %s, hash of the specified pre-image %s (body: %s)"
@@ -74,6 +102,8 @@ def run(ctx):
     ctx.assume("Blake2b-256 is uninterpreted: the harness hashes the specification's pre-image with Hasher::<256> (C10 covers the hash itself)")
     ctx.assume("a witness set without redeemers runs no script: its view part is the empty map (CDDL: A0 | datums | A0) whatever cost models are supplied")
 
+    ctx.assume("pallas-txbuilder keeps staged redeemers in a std HashMap (RandomState): the emitted order, and so the number of distinct "
+               "built outcomes, varies from run to run; the verdict does not depend on it")
     cfg = ctx.path("MCScriptIntegrity.cfg")
     src = open(os.path.join(vlib.SPEC, SPEC_DIR, "MCScriptIntegrity.cfg")).read()
     open(cfg, "w").write(src.replace("Tier = 1", "Tier = %d" % tier))
@@ -87,7 +117,7 @@ def run(ctx):
         cj = ctx.path("costs.json")
         json.dump(cm, open(cj, "w"))
         parts = ctx.path("parts.ndjson")
-        ctx.run_bin(binary, ["scriptdata-parts", "--costs", cj, "--out", parts])
+        ctx.run_bin(binary, ["scriptdata-parts", "--costs", cj, "--out", parts, "--txb", "thorough" if ctx.thorough else "quick"])
     else:
         ctx.notes.append("cost models not found in script_data.rs: real-transaction vectors skipped")
 
@@ -100,7 +130,15 @@ def run(ctx):
     rows, results = vlib.read_ndjson(vec), vlib.read_ndjson(out)
     if len(rows) != len(results) or n != len(rows):
         raise vlib.ToolError("replay produced %d results for %d vectors" % (len(results), len(rows)))
-    real = [(r, s) for r, s in zip(rows, results) if r["kind"] == "real"]
+    pmap = {p["name"]: p for p in vlib.read_ndjson(parts)} if parts else {}
+    for r, s in zip(rows, results):
+        if r["kind"] == "real":
+            s["part"] = pmap.get(r["name"])
+    txb = [(r, s) for r, s in zip(rows, results) if r["kind"] == "real" and r["name"].startswith("txb/")]
+    real = [(r, s) for r, s in zip(rows, results) if r["kind"] == "real" and not r["name"].startswith("txb/")]
+    ctx.cov["txbuilder_outcomes"] = len(txb)
+    ctx.cov["txbuilder_builds"] = sum(s["part"].get("builds", 0) for _, s in txb)
+    ctx.cov["txbuilder_unsorted_redeemer_lists"] = sum(1 for _, s in txb if s["part"].get("sorted") is False)
     for r, s in real:
         if s.get("body") and s["body"] not in s["want"]:
             raise vlib.ToolError("specification pre-image for %s does not hash to the on-chain script_data_hash" % r["name"])
@@ -140,6 +178,10 @@ def run(ctx):
         ctx.run_bin(binary, ["scriptdata-replay", "--in", bv, "--out", bo])
         for r, s in zip(bad, vlib.read_ndjson(bo)):
             ctx.selftest("corrupt one byte of the expected pre-image (%s)" % case_key(r), len(judge(r, s)[0]) > 0)
+        if txb:
+            r0, s0 = next((r, s) for r, s in txb if s["got"]["st"] == "hash" and s["want"] and s["got"]["h"] in s["want"] and s["part"].get("n_redeemers", 0) >= 2)
+            ctx.selftest("pretend the built body of %s carries another hash" % r0["name"],
+                         any(k.startswith("txbuilder/hash-mismatch") for k, _ in judge(r0, dict(s0, got={"st": "hash", "h": "00" * 32}))[0]))
         nh = next(i for i, r in enumerate(rows) if r["kind"] == "gen" and r["nohash"])
         ctx.selftest("pretend a hash was produced for the empty witness set",
                      len(judge(rows[nh], dict(results[nh], got={"st": "hash", "h": "00"}))[0]) > 0)
@@ -148,5 +190,7 @@ def run(ctx):
         rule="MC: pre-image structure and key-order canonicity over 8 redeemer forms x 7 datum wires x every subset of {V1,V2,V3} "
              "with rotating cost vectors; M1: every case decoded as a real WitnessSet, ScriptData::build_for(..).hash() compared with "
              "Hasher::<256>::hash(specified pre-image); 5 real transactions: pre-image assembled by TLC from raw parts, equal to "
-             "the library's hash and to the on-chain script_data_hash",
+             "the library's hash and to the on-chain script_data_hash; pallas-txbuilder: staged transactions (0..8 redeemers x datums x "
+             "language views, several builds each) - script_data_hash of the built body = hash of the pre-image TLC assembles from "
+             "the emitted witness set",
         exhaustive=False)
